@@ -30,6 +30,9 @@ type Scenario struct {
 	Body func()
 	// Oracle returns ("","") or the stable key and message of the violated rule.
 	Oracle func(r *vsched.Result) (key, msg string)
+	// MultiOracle, if set, is used instead of Oracle and may report several
+	// violated rules (key, message) for one execution.
+	MultiOracle func(r *vsched.Result) [][2]string
 	// Class returns the observation class of an execution (default: its log).
 	Class func(r *vsched.Result) string
 	// Bound overrides Config.Bound for this scenario when > 0 (or == -1 for 0).
@@ -119,27 +122,39 @@ func exploreItem(scs []Scenario, cfg Config, it item) result {
 		if res.Sample == nil {
 			res.Sample = r.Log
 		}
-		key, msg := "", ""
-		switch {
-		case r.Horizon:
-			key, msg = "step-horizon-exceeded", fmt.Sprintf("execution exceeded %d scheduling points (livelock candidate)", cfg.MaxPoints)
-		case sc.Oracle != nil:
-			key, msg = sc.Oracle(r)
+		for _, v := range verdicts(sc, cfg, r) {
+			key, msg := v[0], v[1]
+			if key == "" || seen[key] {
+				continue
+			}
+			seen[key] = true
+			if !confirm(sc, cfg, r.Choices, key) {
+				res.Nondet = fmt.Sprintf("scenario %s schedule %v (%s) does not replay deterministically; first observation: %s", sc.Name, r.Choices, key, msg)
+				return
+			}
+			res.Viols = append(res.Viols, viol{key, msg, r.Choices, r.Log})
 		}
-		if key == "" || seen[key] {
-			return
-		}
-		seen[key] = true
-		if !confirm(sc, cfg, r.Choices, key) {
-			res.Nondet = fmt.Sprintf("scenario %s schedule %v (%s) does not replay deterministically; first observation: %s", sc.Name, r.Choices, key, msg)
-			return
-		}
-		res.Viols = append(res.Viols, viol{key, msg, r.Choices, r.Log})
 	}
 	x.Explore(it.Prefix)
 	res.Executions, res.MaxPts, res.MaxG = x.Executions, x.MaxPts, x.MaxG
 	res.Deadlocks, res.Horizons, res.Capped, res.Diverged = x.Deadlocks, x.Horizons, x.Capped, x.Diverged
 	return res
+}
+
+// verdicts returns every (key, message) the scenario's oracle reports for r.
+func verdicts(sc Scenario, cfg Config, r *vsched.Result) [][2]string {
+	if r.Horizon {
+		return [][2]string{{"step-horizon-exceeded", fmt.Sprintf("execution exceeded %d scheduling points (livelock candidate)", cfg.MaxPoints)}}
+	}
+	if sc.MultiOracle != nil {
+		return sc.MultiOracle(r)
+	}
+	if sc.Oracle != nil {
+		if k, m := sc.Oracle(r); k != "" {
+			return [][2]string{{k, m}}
+		}
+	}
+	return nil
 }
 
 // confirm re-executes a violating schedule 5 times from its recorded choices;
@@ -151,13 +166,13 @@ func confirm(sc Scenario, cfg Config, choices []int, key string) bool {
 		if r.Diverged != "" || fmt.Sprint(r.Choices) != fmt.Sprint(choices) {
 			return false
 		}
-		k := ""
-		if r.Horizon {
-			k = "step-horizon-exceeded"
-		} else if sc.Oracle != nil {
-			k, _ = sc.Oracle(r)
+		found := false
+		for _, v := range verdicts(sc, cfg, r) {
+			if v[0] == key {
+				found = true
+			}
 		}
-		if k != key {
+		if !found {
 			return false
 		}
 	}
@@ -427,16 +442,13 @@ func exploreItemRootOnly(scs []Scenario, cfg Config, si int) rootOut {
 	if r.Diverged != "" {
 		res.Diverged = r.Diverged
 	}
-	key, msg := "", ""
 	if r.Horizon {
 		res.Horizons++
-		key, msg = "step-horizon-exceeded", "default schedule exceeded the step horizon"
-	} else if sc.Oracle != nil {
-		key, msg = sc.Oracle(r)
 	}
-	if key != "" {
+	for _, v := range verdicts(sc, cfg, r) {
+		key, msg := v[0], v[1]
 		if !confirm(sc, cfg, r.Choices, key) {
-			res.Nondet = fmt.Sprintf("scenario %s default schedule does not replay deterministically", sc.Name)
+			res.Nondet = fmt.Sprintf("scenario %s default schedule does not replay deterministically (%s)", sc.Name, key)
 		} else {
 			res.Viols = append(res.Viols, viol{key, msg, r.Choices, r.Log})
 		}
